@@ -121,6 +121,32 @@ CHECKS = {
             "entropy additivity on all catalogue pairs; is_product on bi- and tripartite vectors / operators; sk_operator_norm brackets every enumerated "
             "vector of Schmidt rank <= k with numpy's global seed as an explicit axis; is_block_positive on closed-form cases.",
             "l1-coherence invariance only under local monomial unitaries (the literal local-unitary claim is mathematically false, see ASSUMPTIONS); finite alphabets"),
+    "C07": ("model_checking",
+            "exhaustive enumeration of games vs exact rational brute force + explicit-state exploration of call histories on the real game object",
+            "classical_value is compared with an exact Fraction brute force over all pairs of answer functions (cross-derived by two best-response recursions) on "
+            "ALL 81 shapes over {1,2,3}^4: every 0/1 tensor up to 12 (thorough 16) cells, {0,1/2,1} tensors up to 6 (8) cells, cell-pattern products above, x 5 question "
+            "distributions (incl. seed-derived rationals), int and float arrays, plus shapes that drive the >1000-strategy multiprocessing branch (thorough); r-fold product "
+            "games cell by cell (reps 2,3); from_bcs_game on all small constraint systems; the ordering classical <= / see-saw <= NPA-2 <= NPA-1+ab <= NPA-1 <= NS <= 1 on a "
+            "full 4^4 pattern core and all games within 1 (thorough 2) deviations of CHSH over 7 shapes; and a breadth-first exploration of call histories (depth 2, "
+            "thorough 3) over {classical, NS, NPA, see-saw with owned entropy} on 8 games: prob_mat / pred_mat / reps bitwise unchanged in every state and every value "
+            "equal to the value from the initial state.",
+            "NPA has no independent reference (bounded from below by exact / achieved values and above by NS and level monotonicity); SDP slack 1e-3; histories to depth 3"),
+    "C08": ("exploration",
+            "exhaustive enumeration of all 0/1 XOR predicates x distributions x shapes on the real code vs certified SDP bracket, exact brute force and a Jordan-lemma oracle",
+            "All 0/1 predicate matrices of every shape (X,Y) in {1,2,3}^2 (thorough X*Y<=12, X,Y<=4) x {uniform, product-skewed, zero row, zero entry, seed-derived} x tol x reps 1..3: "
+            "quantum_value inside a certified bracket [L,U] (explicit unit vectors evaluated by dot products; explicit dual point verified by eigvalsh), = NPA level 1 of the "
+            "converted game, >= exact classical, Grothendieck bound, reps = r-th power; classical_value = +-1 brute force = general-game brute force of the conversion; NS values "
+            "equal; closed forms (CHSH, odd cycles); constructor rejections; bell_inequality_max for all 81 joint coefficient matrices over {-1,0,1} x marginals x outcome "
+            "conventions (+ solvers in thorough) vs a Jordan-lemma grid/refinement oracle and the best deterministic assignment.",
+            "SCS tolerance 1e-3 (2e-3 for Bell); Jordan oracle rests on lattice + refinement; bell_inequality_max only for two settings per party"),
+    "C09": ("exploration",
+            "exhaustive enumeration of extended-game / hedging / cloning catalogues on the real code vs brute force, certified SDP brackets and closed forms",
+            "unentangled_value vs brute force over all (f,g) with eigvalsh on referee dims 1..3 x 6 (thorough 10) shapes with unequal counts x 7 question-dependent cell patterns x PSD "
+            "operator schemes (real, complex, rank-2) x distributions; exact product games (reps 2,3); ordering unentangled <= / see-saw (owned entropy) <= NPA_2 <= NPA_1+ab <= "
+            "NPA_1 <= NS on deviation-bounded and full-core game sets; history exploration over the value methods (arrays unchanged, values reproducible); QuantumHedging "
+            "max/min primal/dual inside a certified bracket, primal = dual, max >= min, product consistency, cos^2(pi/8) / sin^2(pi/8) / perfect hedging; optimal_clone on all 1..4 "
+            "subsets of 8 (thorough 10) qubit kets + six-state ensemble x priors x input forms x reps 1..2 inside the bracket, closed forms 1, 3/4, 2/3.",
+            "no independent NPA reference; hedging and cloning qubit-only (as the code); reps <= 2; SCS tolerance 1e-3"),
 }
 
 PENDING_REASON = "check not built yet in this session (work in progress; see DESIGN.md section 7 for the planned exploration)"
